@@ -63,6 +63,10 @@ func (p Precompile) Address() common.Address {
 
 // RequiredGas calculates the precompiled contract's base gas rate.
 func (p Precompile) RequiredGas(input []byte) uint64 {
+	// calldata shorter than a method selector: nothing to price, Run rejects it
+	if len(input) < 4 {
+		return 0
+	}
 	methodID := input[:4]
 
 	method, err := p.MethodById(methodID)
